@@ -260,18 +260,20 @@ class ExcludeRegionState(object):  # pylint: disable=too-many-instance-attribute
         boolean
             True if any point in the list is contained in an excluded region, False otherwise.
         """
-        if (self._exclusionEnabled):
-            xAxis = self.position.X_AXIS
-            yAxis = self.position.Y_AXIS
+        xAxis = self.position.X_AXIS
+        yAxis = self.position.Y_AXIS
+        anyExcluded = False
 
-            for index in range(0, len(xyPairs), 2):
-                x = xAxis.setLogicalPosition(xyPairs[index])
-                y = yAxis.setLogicalPosition(xyPairs[index + 1])
+        # Always walk the whole list so the tracked position ends up at the final point of the move,
+        # whether or not exclusion is enabled and whichever point is the first one found excluded
+        for index in range(0, len(xyPairs), 2):
+            x = xAxis.setLogicalPosition(xyPairs[index])
+            y = yAxis.setLogicalPosition(xyPairs[index + 1])
 
-                if (self.isPointExcluded(x, y)):
-                    return True
+            if (not anyExcluded and self.isPointExcluded(x, y)):
+                anyExcluded = True
 
-        return False
+        return anyExcluded
 
     def isExclusionEnabled(self):
         """Whether exclusion is currently enabled (True) or disabled (False)."""
